@@ -20,7 +20,9 @@ def gen_query(r):
     if kind == "valueless":
         return r.choice(["keyOnly", "a&b=1", "b=&a", "comp=config&keyOnly&type=x"]), kind
     if kind == "prefix":
-        return r.choice(["b=1&ab=&a=b1", "a=b1&ab=", "ab=&a=b1", "a=b&ab", "a=bc&abc"]), kind
+        return r.choice(["b=1&ab=&a=b1", "a=b1&ab=", "ab=&a=b1", "a=b&ab", "a=bc&abc",
+                         # a name that is a prefix of the next one, with a value that sorts ABOVE the character the longer name goes on with
+                         "api=z&api-version=2018-02-01", "api-version=2018-02-01&api=z", "a=~&a0=1", "k=zz&k-x=a&kk=0", "comp=x&comp2=a&co=zz"]), kind
     if kind == "collision":
         return r.choice(["a=bc&ab=c", "ab=c&a=bc", "x=1&a=bc&ab=c", "k=vv&kv=v"]), kind
     if kind == "mixedcase":
